@@ -93,15 +93,6 @@ func PruneUpto(
 		return 0, 0, err
 	}
 
-	batch := database.NewBatch()
-	defer batch.Close()
-	if err := PruneBlockDataUpto(batch, blockNum); err != nil {
-		return 0, 0, err
-	}
-	if err := batch.Write(); err != nil {
-		return 0, 0, err
-	}
-
 	return blockNum - start, blockNum, nil
 }
 
@@ -152,7 +143,8 @@ func PruneBlockDataUpto(w db.KeyValueRangeDeleter, rangeEndExclusive uint64) err
 }
 
 // pruneHashKeyedUpto deletes the hash-keyed indexes for every block in
-// [start, endExclusive), iterating per-block and rotating the batch
+// [start, endExclusive) and, in the same batches, the number-keyed block
+// data (see [PruneBlockDataUpto]), iterating per-block and rotating the batch
 // whenever its size exceeds targetBatchByteSize. Also point-deletes the
 // carve-out left at start-1 by the previous PruneUpto call. Owns its
 // own batch lifecycle and writes the final batch before returning.
@@ -217,6 +209,12 @@ func pruneHashKeyedUpto(
 		}
 
 		if batch.Size() >= targetBatchByteSize {
+			// Commit the number-keyed data of the blocks handled so far together with their
+			// hash-keyed indexes: a crash between two batches must not leave a block that still
+			// counts as retained (its commitments exist) without its hash lookups.
+			if err := PruneBlockDataUpto(batch, blockNum+1); err != nil {
+				return 0, err
+			}
 			if err := batch.Write(); err != nil {
 				return 0, err
 			}
@@ -224,6 +222,9 @@ func pruneHashKeyedUpto(
 		}
 	}
 
+	if err := PruneBlockDataUpto(batch, blockNum); err != nil {
+		return 0, err
+	}
 	return blockNum, batch.Write()
 }
 
